@@ -1,5 +1,5 @@
-(* GENERATED from the C text of enc.c (enc_validate_msg) and dec.c (dec_validate_auth, dec_validate_time) by tools/facts/cfun.py - do not edit *)
-From Coq Require Import List NArith ZArith Bool.
+(* GENERATED from the C text of enc.c and dec.c (decision functions and the enc_process_msg / dec_process_msg skeletons) by tools/facts/cfun.py - do not edit *)
+From Coq Require Import List NArith ZArith Bool String.
 From RecordUpdate Require Import RecordSet.
 From MV Require Import Bytes CredModel.
 From MV.gen Require Import GenCred.
@@ -8,6 +8,15 @@ Local Open Scope Z_scope.
 Definition b2z (b : bool) : Z := if b then 1 else 0.
 Definition wrap32 (z : Z) : Z := z mod 4294967296.
 Definition wrapi32 (z : Z) : Z := (z + 2147483648) mod 4294967296 - 2147483648.
+(* the operations a request-processing skeleton is translated over: S is the state of one request *)
+Record pipe_ops (S : Type) : Type := {
+  op_msg : S -> msg;                   (* the m_msg the members m->... are read from *)
+  op_stage : string -> S -> Z * S;     (* a stage function, by its C name: its return value and the new state *)
+  op_reset : S -> S;                   (* m_msg_reset (m) *)
+  op_send : S -> Z * S;                (* m_msg_send (m, ...): its munge_err_t value and the new state *)
+  op_unplay : S -> S                   (* replay_remove (c) *)
+}.
+Arguments op_msg {S}. Arguments op_stage {S}. Arguments op_reset {S}. Arguments op_send {S}. Arguments op_unplay {S}.
 
 Definition src_enc_validate_msg (cf : conf) (m : msg) : N * msg :=
   match (
@@ -151,6 +160,345 @@ Definition src_dec_validate_time (cf : conf) (m : msg) : N * msg :=
       | inl r => r
       | inr (m, (l_skew, l_tmin, l_tmax, tt)) =>
         (0%N, m)
+      end
+    end
+  end.
+
+Definition src_dec_validate_msg (cf : conf) (p_data : Z) (m : msg) : N * msg :=
+  match (
+    if (((Z.of_N (m_data_len m)) =? 0) || (p_data =? 0)) then
+      inl (e_snafu, m)
+    else
+      inr (m, (tt))
+  ) with
+  | inl r => r
+  | inr (m, (tt)) =>
+    (0%N, m)
+  end.
+
+Definition src_dec_timestamp (cf : conf) (clk : Z) (m : msg) : N * msg :=
+  let l_now := 0 in
+  match (
+    let l_now := clk in
+    if (clk =? (- 1)) then
+      inl (e_snafu, m)
+    else
+      inr (m, (l_now, tt))
+  ) with
+  | inl r => r
+  | inr (m, (l_now, tt)) =>
+    let m := m <| m_time0 := Z.to_N 0 |> in
+    let m := m <| m_time1 := Z.to_N (wrap32 l_now) |> in
+    (0%N, m)
+  end.
+
+Definition src_enc_timestamp (cf : conf) (clk : Z) (m : msg) : N * msg :=
+  let l_now := 0 in
+  match (
+    let l_now := clk in
+    if (clk =? (- 1)) then
+      inl (e_snafu, m)
+    else
+      inr (m, (l_now, tt))
+  ) with
+  | inl r => r
+  | inr (m, (l_now, tt)) =>
+    let m := m <| m_time0 := Z.to_N (wrap32 l_now) |> in
+    let m := m <| m_time1 := Z.to_N 0 |> in
+    (0%N, m)
+  end.
+
+Definition src_dec_authenticate (cf : conf) (auth_rc peer_uid peer_gid : Z) (m : msg) : N * msg :=
+  match (
+    let m := (if (auth_rc =? 0) then m <| m_client_uid := Z.to_N peer_uid |> else m) in
+    let m := (if (auth_rc =? 0) then m <| m_client_gid := Z.to_N peer_gid |> else m) in
+    if (negb (auth_rc =? (Z.of_N e_success))) then
+      inl (e_snafu, m)
+    else
+      inr (m, (tt))
+  ) with
+  | inl r => r
+  | inr (m, (tt)) =>
+    (0%N, m)
+  end.
+
+Definition src_enc_authenticate (cf : conf) (auth_rc peer_uid peer_gid : Z) (m : msg) : N * msg :=
+  match (
+    let m := (if (auth_rc =? 0) then m <| m_client_uid := Z.to_N peer_uid |> else m) in
+    let m := (if (auth_rc =? 0) then m <| m_client_gid := Z.to_N peer_gid |> else m) in
+    if (negb (auth_rc =? (Z.of_N e_success))) then
+      inl (e_snafu, m)
+    else
+      inr (m, (tt))
+  ) with
+  | inl r => r
+  | inr (m, (tt)) =>
+    (0%N, m)
+  end.
+
+Definition src_dec_check_retry (cf : conf) (m : msg) : N * msg :=
+  match (
+    if ((Z.of_N (m_retry m)) >? 0) then
+      inr (m, (tt))
+    else
+      inr (m, (tt))
+  ) with
+  | inl r => r
+  | inr (m, (tt)) =>
+    match (
+      if ((Z.of_N (m_retry m)) >? (Z.of_N c_retry_attempts)) then
+        inl (e_socket, m)
+      else
+        inr (m, (tt))
+    ) with
+    | inl r => r
+    | inr (m, (tt)) =>
+      (0%N, m)
+    end
+  end.
+
+Definition src_enc_check_retry (cf : conf) (m : msg) : N * msg :=
+  match (
+    if ((Z.of_N (m_retry m)) >? 0) then
+      inr (m, (tt))
+    else
+      inr (m, (tt))
+  ) with
+  | inl r => r
+  | inr (m, (tt)) =>
+    match (
+      if ((Z.of_N (m_retry m)) >? (Z.of_N c_retry_attempts)) then
+        inl (e_socket, m)
+      else
+        inr (m, (tt))
+    ) with
+    | inl r => r
+    | inr (m, (tt)) =>
+      (0%N, m)
+    end
+  end.
+
+Definition src_dec_validate_replay (cf : conf) (ins : Z) (errno_ : Z) (m : msg) : N * msg :=
+  let l_rc := 0 in
+  let l_rc := ins in
+  match (
+    if (l_rc =? 0) then
+      inl (0%N, m)
+    else
+      inr (m, (l_rc, tt))
+  ) with
+  | inl r => r
+  | inr (m, (l_rc, tt)) =>
+    match (
+      if (l_rc >? 0) then
+        if (((negb ((b2z (cf_socket_retry cf)) =? 0)) && ((Z.of_N (m_retry m)) >? 0)) && ((Z.of_N (m_retry m)) <=? (Z.of_N c_retry_attempts))) then
+          inl (0%N, m)
+        else
+          inl (e_cred_replayed, m)
+      else
+        inr (m, (l_rc, tt))
+    ) with
+    | inl r => r
+    | inr (m, (l_rc, tt)) =>
+      match (
+        if (errno_ =? 12) then
+          inl (e_no_memory, m)
+        else
+          inr (m, (l_rc, tt))
+      ) with
+      | inl r => r
+      | inr (m, (l_rc, tt)) =>
+        (e_snafu, m)
+      end
+    end
+  end.
+
+Definition src_dec_process_msg {S : Type} (ops : pipe_ops S) (m : S) : Z * S :=
+  let l_c := 0 in
+  let l_rc := 0 in
+  let l_c := 0 in
+  let l_rc := (- 1) in
+  match (
+    let '(v1, m) := op_stage ops "dec_validate_msg"%string m in
+    if (v1 <? 0) then
+      inr (m, (l_c, l_rc, tt))
+    else
+      let '(v2, m) := op_stage ops "cred_create"%string m in
+      let l_c := v2 in
+      if (negb (negb (l_c =? 0))) then
+        inr (m, (l_c, l_rc, tt))
+      else
+        let '(v3, m) := op_stage ops "dec_timestamp"%string m in
+        if (v3 <? 0) then
+          inr (m, (l_c, l_rc, tt))
+        else
+          let '(v4, m) := op_stage ops "dec_authenticate"%string m in
+          if (v4 <? 0) then
+            inr (m, (l_c, l_rc, tt))
+          else
+            let '(v5, m) := op_stage ops "dec_check_retry"%string m in
+            if (v5 <? 0) then
+              inr (m, (l_c, l_rc, tt))
+            else
+              let '(v6, m) := op_stage ops "dec_unarmor"%string m in
+              if (v6 <? 0) then
+                inr (m, (l_c, l_rc, tt))
+              else
+                let '(v7, m) := op_stage ops "dec_unpack_outer"%string m in
+                if (v7 <? 0) then
+                  inr (m, (l_c, l_rc, tt))
+                else
+                  let '(v8, m) := op_stage ops "dec_decrypt"%string m in
+                  if (v8 <? 0) then
+                    inr (m, (l_c, l_rc, tt))
+                  else
+                    let '(v9, m) := op_stage ops "dec_validate_mac"%string m in
+                    if (v9 <? 0) then
+                      inr (m, (l_c, l_rc, tt))
+                    else
+                      let '(v10, m) := op_stage ops "dec_decompress"%string m in
+                      if (v10 <? 0) then
+                        inr (m, (l_c, l_rc, tt))
+                      else
+                        let '(v11, m) := op_stage ops "dec_unpack_inner"%string m in
+                        if (v11 <? 0) then
+                          inr (m, (l_c, l_rc, tt))
+                        else
+                          let '(v12, m) := op_stage ops "dec_validate_auth"%string m in
+                          if (v12 <? 0) then
+                            inr (m, (l_c, l_rc, tt))
+                          else
+                            let '(v13, m) := op_stage ops "dec_validate_time"%string m in
+                            if (v13 <? 0) then
+                              inr (m, (l_c, l_rc, tt))
+                            else
+                              let '(v14, m) := op_stage ops "dec_validate_replay"%string m in
+                              if (v14 <? 0) then
+                                inr (m, (l_c, l_rc, tt))
+                              else
+                                let l_rc := 0 in
+                                inr (m, (l_c, l_rc, tt))
+  ) with
+  | inl r => r
+  | inr (m, (l_c, l_rc, tt)) =>
+    match (
+      if ((((negb (l_rc =? 0)) && (negb ((Z.of_N (m_err (op_msg ops m))) =? (Z.of_N e_cred_expired)))) && (negb ((Z.of_N (m_err (op_msg ops m))) =? (Z.of_N e_cred_rewound)))) && (negb ((Z.of_N (m_err (op_msg ops m))) =? (Z.of_N e_cred_replayed)))) then
+        let m := op_reset ops m in
+        inr (m, (l_c, l_rc, tt))
+      else
+        inr (m, (l_c, l_rc, tt))
+    ) with
+    | inl r => r
+    | inr (m, (l_c, l_rc, tt)) =>
+      match (
+        let '(v15, m) := op_send ops m in
+        if (negb (v15 =? (Z.of_N e_success))) then
+          match (
+            if (l_rc =? 0) then
+              let m := op_unplay ops m in
+              inr (m, (l_c, l_rc, tt))
+            else
+              inr (m, (l_c, l_rc, tt))
+          ) with
+          | inl r => inl r
+          | inr (m, (l_c, l_rc, tt)) =>
+            let l_rc := (- 1) in
+            inr (m, (l_c, l_rc, tt))
+          end
+        else
+          inr (m, (l_c, l_rc, tt))
+      ) with
+      | inl r => r
+      | inr (m, (l_c, l_rc, tt)) =>
+        (l_rc, m)
+      end
+    end
+  end.
+
+Definition src_enc_process_msg {S : Type} (ops : pipe_ops S) (m : S) : Z * S :=
+  let l_c := 0 in
+  let l_rc := 0 in
+  let l_c := 0 in
+  let l_rc := (- 1) in
+  match (
+    let '(v1, m) := op_stage ops "enc_validate_msg"%string m in
+    if (v1 <? 0) then
+      inr (m, (l_c, l_rc, tt))
+    else
+      let '(v2, m) := op_stage ops "cred_create"%string m in
+      let l_c := v2 in
+      if (negb (negb (l_c =? 0))) then
+        inr (m, (l_c, l_rc, tt))
+      else
+        let '(v3, m) := op_stage ops "enc_init"%string m in
+        if (v3 <? 0) then
+          inr (m, (l_c, l_rc, tt))
+        else
+          let '(v4, m) := op_stage ops "enc_authenticate"%string m in
+          if (v4 <? 0) then
+            inr (m, (l_c, l_rc, tt))
+          else
+            let '(v5, m) := op_stage ops "enc_check_retry"%string m in
+            if (v5 <? 0) then
+              inr (m, (l_c, l_rc, tt))
+            else
+              let '(v6, m) := op_stage ops "enc_timestamp"%string m in
+              if (v6 <? 0) then
+                inr (m, (l_c, l_rc, tt))
+              else
+                let '(v7, m) := op_stage ops "enc_pack_outer"%string m in
+                if (v7 <? 0) then
+                  inr (m, (l_c, l_rc, tt))
+                else
+                  let '(v8, m) := op_stage ops "enc_pack_inner"%string m in
+                  if (v8 <? 0) then
+                    inr (m, (l_c, l_rc, tt))
+                  else
+                    let '(v9, m) := op_stage ops "enc_compress"%string m in
+                    if (v9 <? 0) then
+                      inr (m, (l_c, l_rc, tt))
+                    else
+                      let '(v10, m) := op_stage ops "enc_mac"%string m in
+                      if (v10 <? 0) then
+                        inr (m, (l_c, l_rc, tt))
+                      else
+                        let '(v11, m) := op_stage ops "enc_encrypt"%string m in
+                        if (v11 <? 0) then
+                          inr (m, (l_c, l_rc, tt))
+                        else
+                          let '(v12, m) := op_stage ops "enc_armor"%string m in
+                          if (v12 <? 0) then
+                            inr (m, (l_c, l_rc, tt))
+                          else
+                            let '(v13, m) := op_stage ops "enc_fini"%string m in
+                            if (v13 <? 0) then
+                              inr (m, (l_c, l_rc, tt))
+                            else
+                              let l_rc := 0 in
+                              inr (m, (l_c, l_rc, tt))
+  ) with
+  | inl r => r
+  | inr (m, (l_c, l_rc, tt)) =>
+    match (
+      if (negb (l_rc =? 0)) then
+        let m := op_reset ops m in
+        inr (m, (l_c, l_rc, tt))
+      else
+        inr (m, (l_c, l_rc, tt))
+    ) with
+    | inl r => r
+    | inr (m, (l_c, l_rc, tt)) =>
+      match (
+        let '(v14, m) := op_send ops m in
+        if (negb (v14 =? (Z.of_N e_success))) then
+          let l_rc := (- 1) in
+          inr (m, (l_c, l_rc, tt))
+        else
+          inr (m, (l_c, l_rc, tt))
+      ) with
+      | inl r => r
+      | inr (m, (l_c, l_rc, tt)) =>
+        (l_rc, m)
       end
     end
   end.
